@@ -268,6 +268,11 @@ Example C14_ex_reread :                         (* " a:any ( >=1) [ !x ]<y>|b ,,
   = [97; 58; 97; 110; 121; 32; 40; 62; 61; 32; 49; 41; 32; 91; 33; 120; 93; 32; 60; 121; 62; 32; 124; 32; 98]%N /\
   relations_from_str dv_parse (print_relations dv_print ex_reread_value) = Ok ex_reread_value.
 Proof. vm_compute. repeat split. Qed.
+Example C14_ex_space_before_paren :             (* "a (>= 1 )": accepted since /repo 3e262bf, rejected by the pre-fix twin *)
+  relation_from_str dv_parse [97; 32; 40; 62; 61; 32; 49; 32; 41]%N
+    = Ok (mkRel [97%N] None None (Some (VC_ge, mkDv None [49%N] None)) []) /\
+  old_relation_from_str dv_parse [97; 32; 40; 62; 61; 32; 49; 32; 41]%N = Err 4%N.
+Proof. vm_compute. split; reflexivity. Qed.
 Example C14_ex_errors :                         (* both outcomes of the totality theorems occur *)
   relation_from_str dv_parse [97; 32; 40]%N = Err 3%N /\                        (* "a (" *)
   relations_from_str dv_parse [97; 124]%N = Err 10%N /\                          (* "a|" *)
